@@ -236,3 +236,139 @@ def wf_child(app_id: str, tag: str, script: list) -> list:
     from harness import c18_probe
 
     return c18_probe.run_script("wf_child", app_id, tag, script, None)
+
+# ---- C19: scripted task programs (sync mode vs distributed execution) --------------------------
+# A program node is a JSON-able dict
+#   {"id": int, "cls": int, "direct": bool, "script": [act, ...], "dflt": act, "calls": [call, ...]}
+#   act  = ["ret", c] | ["early", kind, [args]] | ["late", kind, [args]]
+#   call = {"t": "single", "p": node} | {"t": "group", "direct": bool, "ps": [node, ...]} | {"t": "forget", "p": node}
+# Every invocation gets a unique activation key (argument `key`), so the number of earlier executions of
+# *this invocation* is counted in-process (the thread runner shares the process) without consulting pynenc.
+import threading as _c19_threading
+
+
+class C19Err(Exception):
+    pass
+
+
+class C19SubErr(C19Err):
+    pass
+
+
+class C19Other(Exception):
+    pass
+
+
+def c19_exc_types() -> dict:
+    from pynenc.exceptions import ConcurrencyRetryError, RetryError
+
+    return {
+        "C19Err": C19Err, "C19SubErr": C19SubErr, "C19Other": C19Other, "ValueError": ValueError,
+        "KeyError": KeyError, "LookupError": LookupError, "RetryError": RetryError,
+        "ConcurrencyRetryError": ConcurrencyRetryError, "Exception": Exception,
+    }
+
+
+C19_RUNS: dict = {}  # token -> state of one program run (see c19_new_run)
+C19_CLASSES = 4
+
+
+def c19_new_run(token: str, plain: list, direct: list, dgroup: list) -> dict:
+    st = {"plain": plain, "direct": direct, "dgroup": dgroup, "attempts": {}, "log": [], "ends": [], "invs": [],
+          "root": None, "lock": _c19_threading.Lock()}
+    C19_RUNS[token] = st
+    return st
+
+
+def c19_call_root(token: str, node: dict, key: str = "r"):  # type: ignore[no-untyped-def]
+    """Invoke a program from outside any invocation; returns the value (raises what the root raises)."""
+    st = C19_RUNS[token]
+    if node["direct"]:
+        return st["direct"][node["cls"]](node, token, key)
+    inv = st["plain"][node["cls"]](node, token, key)
+    st["root"] = inv
+    return inv.result
+
+
+def _c19_body(spec: dict, token: str, key: str) -> int:
+    st = C19_RUNS[token]
+    with st["lock"]:
+        k = st["attempts"].get(key, 0)
+        st["attempts"][key] = k + 1
+    try:
+        seen = st["plain"][0].invocation.num_retries  # any task of the app resolves the current invocation
+    except Exception as ex:  # reported by the harness as a disagreement
+        seen = f"error:{type(ex).__name__}"
+    with st["lock"]:
+        st["log"].append((spec["id"], key, k, seen))
+    try:
+        v = _c19_run_body(st, spec, token, key, k)
+    except BaseException as ex:
+        with st["lock"]:
+            st["ends"].append((key, k, "err", type(ex).__name__))
+        raise
+    with st["lock"]:
+        st["ends"].append((key, k, "val", v))
+    return v
+
+
+def _c19_run_body(st: dict, spec: dict, token: str, key: str, k: int) -> int:
+    script = spec["script"]
+    act = script[k] if k < len(script) else spec["dflt"]
+    if act[0] == "early":
+        raise c19_exc_types()[act[1]](*act[2])
+    total = 0
+    for j, call in enumerate(spec["calls"]):
+        ckey = f"{key}.{k}.{j}"
+        if call["t"] == "single":
+            child = call["p"]
+            if child["direct"]:
+                total += st["direct"][child["cls"]](child, token, ckey)
+            else:
+                inv = st["plain"][child["cls"]](child, token, ckey)
+                with st["lock"]:
+                    st["invs"].append(inv)
+                total += inv.result
+        elif call["t"] == "forget":
+            child = call["p"]
+            inv = st["plain"][child["cls"]](child, token, ckey)
+            with st["lock"]:
+                st["invs"].append(inv)
+        else:
+            members = call["ps"]
+            if not members:
+                continue
+            cls = members[0]["cls"]
+            if call["direct"]:
+                total += st["dgroup"][cls]({"members": members}, token, ckey)
+            else:
+                grp = st["plain"][cls].parallelize([(m, token, f"{ckey}.{i}") for i, m in enumerate(members)])
+                with st["lock"]:
+                    st["invs"].extend(grp.invocations)
+                total += sum(grp.results)
+    if act[0] == "late":
+        raise c19_exc_types()[act[1]](*act[2])
+    return act[1] + total
+
+
+def c19_fanout(args: dict) -> list:
+    """parallel_func of the direct-group flavour: one invocation per member."""
+    return [(m, args["token"], f"{args['key']}.{i}") for i, m in enumerate(args["spec"]["members"])]
+
+
+def c19_sum(results) -> int:  # type: ignore[no-untyped-def]
+    return sum(results)
+
+
+def _c19_make(name: str):  # type: ignore[no-untyped-def]
+    def f(spec: dict, token: str, key: str) -> int:
+        return _c19_body(spec, token, key)
+
+    f.__name__ = f.__qualname__ = name
+    return f
+
+
+for _i in range(C19_CLASSES):
+    for _fl in ("p", "d", "g"):
+        globals()[f"c19_{_fl}{_i}"] = _c19_make(f"c19_{_fl}{_i}")
+del _i, _fl
